@@ -51,6 +51,11 @@ def cases(tier, seed):
         nm = names[(no, cc)]
         for ci in range(len(CONFIGS)):
             cs.append({"no": no, "cc": cc, "name": nm[ci % len(nm)], "config": ci, "tier": tier})
+        if cc == "rhombohedral" or no in (14, 62, 225):
+            # the same group named the way users write it: padded, upper case (incl. the setting suffix), blanks inside
+            base = nm[-1]
+            for si, sp in enumerate((base + " ", " " + " ".join(base).upper(), base.upper() + "\n", "\t" + base.title())):
+                cs.append({"no": no, "cc": cc, "name": sp, "config": 1 + (si % 2) * 2, "tier": tier})
     cs.append({"kind": "history", "tier": tier})
     return cs
 
@@ -102,7 +107,7 @@ def check_case(case):
         check_history(r)
         return r
     name = case["name"]
-    g = sg.sg(sgname=name)
+    g = sg.sg(sgno=case["no"], cell_choice=case["cc"])  # the operations of the group that was ASKED for (C04 checks the tables themselves)
     ops = O.exact_ops(g)
     cell = alph.conforming_cells(g.crystal_system, g.cell_choice)[0]
     label, spec = CONFIGS[case["config"]]
